@@ -768,10 +768,22 @@ impl<'a> Run<'a> {
     }
 
     fn cell_battery(&mut self, op: &OutPoint, snapshot: bool, ctx_: &str) -> Verdict {
+        self.cell_battery_sel(op, snapshot, false, ctx_)
+    }
+
+    /// `hash_only`: ask for liveness and the data hash but never for the data, the way the script
+    /// verifier reads the cell deps it does not execute (the two caches are filled independently)
+    fn cell_battery_sel(&mut self, op: &OutPoint, snapshot: bool, hash_only: bool, ctx_: &str) -> Verdict {
         let via = if snapshot { "snapshot" } else { "store" };
         let live = self.w.tree.get(&self.w.tip).state.live.contains_key(&cell_key(op));
         self.st.label(if live { "query:cell-live" } else { "query:cell-not-live" });
+        if hash_only && live {
+            self.st.label("query:cell-live:data-hash-without-data");
+        }
         for q in 0..CQ_NAMES.len() {
+            if hash_only && (q == 2 || q == 4) {
+                continue;
+            }
             let (sa, sr) = (self.p.t.shared.snapshot(), self.p.r.shared.snapshot());
             let (a, r) = if snapshot {
                 (cell_query(sa.as_ref(), sa.as_ref(), op, q), cell_query(sr.as_ref(), sr.as_ref(), op, q))
@@ -1573,7 +1585,7 @@ impl<'a> Run<'a> {
                 } else {
                     self.w.cells[pick_idx(*sel as u32, n)].clone()
                 };
-                self.cell_battery(&op, *snapshot, "cell query")?;
+                self.cell_battery_sel(&op, *snapshot, *sel % 3 == 0, "cell query")?;
             }
             Op::TxQuery { sel, snapshot } => {
                 if !self.w.txs.is_empty() {
